@@ -39,6 +39,14 @@ mod libmv {
     use ::glam_libm as glam;
     include!("suite.rs");
 }
+/// the same checks with `glam-assert` compiled in: the generated inputs satisfy the documented preconditions,
+/// so a panic there is a failure
+#[cfg(not(feature = "core"))]
+mod asserting {
+    pub const VARIANT: &str = "simd+glam-assert";
+    use ::glam_assert as glam;
+    include!("suite.rs");
+}
 #[cfg(feature = "core")]
 mod core_simd {
     pub const VARIANT: &str = "core";
@@ -53,6 +61,8 @@ fn main() {
     {
         subs.extend(simd::subs(&args));
         subs.extend(scalar::subs(&args));
+        // normalize() on a zero / overflowing vector is a documented glam-assert panic: that sub-check stays out
+        subs.extend(asserting::subs(&args).into_iter().filter(|s| !s.name.starts_with("normalize/")));
         subs.extend(libmv::subs(&args));
     }
     #[cfg(feature = "core")]
